@@ -276,6 +276,17 @@ def _bcast3_witnesses():
     return out
 WITNESSES += _bcast3_witnesses()
 
+# outer: the result shape of a constant-shape operand and a CLIPPED-shape operand is not a compile-time constant (the clipped extents are
+# only bounds), in either order; two constant shapes give a constant shape
+def _outer_shape_witnesses():
+    pre = "template <size_t... E> using cs2_t = nmtools_tuple<meta::ct<E>...>; using clip6 = nmtools_tuple<nm::clipped_size_t<6>>; template <class A, class B> using so_t = std::remove_cv_t<std::remove_reference_t<decltype(nm::index::shape_outer(std::declval<A>(), std::declval<B>()))>>;\n"
+    return [
+      W("c11_outer_const_clipped", "C11", "pass", "shape_outer(constant (2,3), clipped (<=6)): not a constant shape", pre + "void f(){ static_assert(!meta::is_constant_index_array_v<so_t<cs2_t<2,3>, clip6>>); }"),
+      W("c11_outer_clipped_const", "C11", "pass", "shape_outer(clipped (<=6), constant (2,3)): not a constant shape", pre + "void f(){ static_assert(!meta::is_constant_index_array_v<so_t<clip6, cs2_t<2,3>>>); }"),
+      W("c11_outer_const_const", "C11", "pass", "shape_outer(constant (2,3), constant (4)): the constant shape (2,3,4)", pre + "void f(){ using R = so_t<cs2_t<2,3>, cs2_t<4>>; static_assert(meta::is_constant_index_array_v<R>); static_assert(bounds_are<R>(szs<2,3,4>())); }"),
+    ]
+WITNESSES += _outer_shape_witnesses()
+
 # ---------------- C10: the array type the default evaluator allocates can represent every shape the view can take
 def _result_witnesses():
     out = []
